@@ -21,6 +21,12 @@ def gen_cell(rng, n, tier):
         x0 = rng.randint(-8, 8) / 4; y0 = rng.randint(-8, 8) / 4
         ax = rng.randint(1, 40) / 4; ay = rng.randint(1, 40) / 4
         rx = rng.choice([0.25, 0.5, 1, 1.5, 2, 3]); ry = rng.choice([0.25, 0.5, 1, 1.5, 2, 3])
+        if rng.random() < 0.25:                      # an extent a sliver (2^-33, 2^-30) above / below a whole number of cells: one more / no more row or column, exact in binary
+            e = rng.choice([2.0 ** -33, 2.0 ** -30, -2.0 ** -33])
+            if rng.random() < 0.7:
+                ay = max(1, round(ay / ry)) * ry + e
+            else:
+                ax = max(1, round(ax / rx)) * rx + e
         pts = [[x0 + rng.randint(-1, int(ax * 4) + 1) / 4, y0 + rng.randint(-1, int(ay * 4) + 1) / 4] for _ in range(6)]
         pts += [[x0, y0], [x0 + ax, y0 + ay]]
         out.append({'box': [x0, y0, x0 + ax, y0 + ay], 'res': [rx, ry], 'pts': pts})
@@ -65,6 +71,10 @@ def footprint_cell(ext, res, ncol, nrow, x, y):
 def oracle_cell(case, obs):
     if 'exc' in obs:
         return 'Raster / getCell raised %s' % obs['exc']
+    ext = list(map(F, obs['ext']))
+    nc = math.ceil((ext[1] - ext[0]) / F(case['res'][0])); nr = math.ceil((ext[3] - ext[2]) / F(case['res'][1]))
+    if (obs['ncol'], obs['nrow']) != (nc, nr):
+        return 'the raster has %d x %d cells, an extent of %r at resolution %r needs %d x %d to cover it' % (obs['ncol'], obs['nrow'], obs['ext'], case['res'], nc, nr)
     for (x, y), c in zip(case['pts'], obs['cells']):
         e = footprint_cell(obs['ext'], case['res'], obs['ncol'], obs['nrow'], x, y)
         if c != e:
